@@ -85,8 +85,10 @@ Add    == \E x \in Nodes \ members :
              /\ \A y \in members : y < x
              /\ \A z \in Nodes \ members : (\A y \in members : y < z) => x <= z
              /\ Resize("add", x, members \cup {x})
-\* the coordinator (slot 0) is never removed; at least two members remain
-Remove == \E x \in members \ {0} : Cardinality(members) > 2 /\ Resize("remove", x, members \ {x})
+\* the coordinator (slot 0) is never removed; at least two members remain.  With one replica
+\* a removal is refused by the code whenever the leaving node holds data ("not enough data
+\* to perform resize"): removals are generated for r >= 2 only.
+Remove == \E x \in members \ {0} : r >= 2 /\ Cardinality(members) > 2 /\ Resize("remove", x, members \ {x})
 
 Next ==
     /\ (Gen => Len(hist) < Depth + 1)
